@@ -107,4 +107,16 @@ def carrierG (t : Nat) (xs : List TG) : TG :=
 def broadcastArraysGraph (xs : List TG) (t i : Nat) : TG :=
   .expand (xs.getD i (iscalar 0)) (.shape (carrierG t xs))
 
+/-! ### creation functions with run-time shapes / fill values -/
+
+/-- `full(shape, fill)` / `full_like(x, fill)` without `dtype=`: `Expand(fill, shape)`. -/
+def fullGraph (fill shape : TG) : TG := .expand fill shape
+
+/-- `zeros / ones / empty(shape, dtype=dt)` and the `*_like` forms: an int64 constant expanded to the shape, then cast. -/
+def constFillGraph (v : Int) (shape : TG) (dt : Nat) : TG := astypeG 7 dt (.expand (iscalar v) shape)
+
+/-- `arange(start, stop, step, dtype=dt)` with a run-time `stop`: `Range` in int64, then cast. -/
+def arangeGraph (start : Int) (stop : TG) (step : Int) (dt : Nat) : TG :=
+  astypeG 7 dt (.range (iscalar start) stop (iscalar step))
+
 end Ndx.TGraph
